@@ -91,6 +91,10 @@ def sx(schema):
         yield model("undefined-type", t.kind.lower() + "-field-wrapped", with_type(schema, replace(t, fields=t.fields + (FieldDef("zz", ("nn", ("list", ("nn", und)))),))))
         yield model("undefined-type", t.kind.lower() + "-field-argument", with_type(schema, replace(t, fields=t.fields + (FieldDef("zz", ("named", "Int"), (ArgDef("x", und),)),))))
         yield raw("undefined-type", t.kind.lower() + "-field-via-extend", "extend %s %s { zz: ZzUndefined }" % ("type" if t.kind == "OBJECT" else "interface", t.name))
+        # ... on the *arguments* of a field added by an extension (for the query root these come after the injected introspection fields)
+        kw = "type" if t.kind == "OBJECT" else "interface"
+        yield raw("undefined-type", t.kind.lower() + "-field-argument-via-extend", "extend %s %s { zz(x: ZzUndefined): Int }" % (kw, t.name))
+        yield raw("non-input-type", t.kind.lower() + "-argument-via-extend", "extend %s %s { zz(x: [%s!]): Int }" % (kw, t.name, objs[0].name))
         yield model("non-input-type", t.kind.lower() + "-argument", with_type(schema, replace(t, fields=t.fields + (FieldDef("zz", ("named", "Int"), (ArgDef("x", ("named", objs[0].name)),)),))))
         yield model("non-input-type", t.kind.lower() + "-argument-wrapped", with_type(schema, replace(t, fields=t.fields + (FieldDef("zz", ("named", "Int"), (ArgDef("x", ("list", ("nn", ("named", objs[0].name)))),)),))))
         if ifaces:
